@@ -19,8 +19,8 @@ ASSUMPTIONS = ['time- and randomness-dependent formulas (NOW/TODAY/RAND/UUID/REQ
                'exception message text is not compared (only the exception class)',
                'a different PYTHONHASHSEED also moves heap addresses, so iteration orders that depend on id()-based hashes '
                'vary between the processes too']
-REQUIRED = {'reply_compares': {'quick': 700, 'thorough': 15000},
-            'bundles_where_name_set_order_differs': {'quick': 300, 'thorough': 3000},
+REQUIRED = {'reply_compares': {'quick': 700, 'thorough': 10000},
+            'bundles_where_name_set_order_differs': {'quick': 300, 'thorough': 2000},
             'themed_bundles_ok': {'quick': 100, 'thorough': 900}}
 SHARD_TIMEOUT = {'quick': 240, 'thorough': 1500}
 
@@ -37,8 +37,9 @@ def plan(tier, seed):
   if tier == 'quick':
     n, steps, k = 16, 30, 3
   else:
-    n, steps, k = 96, 50, 6
-  return [{'hseed': seed * 100003 + 30000 + i, 'steps': steps, 'k': k} for i in range(n)]
+    n, steps, k = 64, 45, 6
+  return [{'regression': 'record_set_orders', 'k': k}] + \
+         [{'hseed': seed * 100003 + 30000 + i, 'steps': steps, 'k': k} for i in range(n)]
 
 
 # ---------------------------------------------------------------------------------------------- generator
@@ -353,7 +354,54 @@ class HashHistory(multi.MultiHistory):
     return ok
 
 
+# Deterministic regression histories for the three sites where a set of records (address-based hash) was
+# iterated and the order reached `stored` (found by this check, findings/proposed/C30-record-set-iteration-order.diff).
+T3 = [{'id': 'A', 'type': 'Int', 'isFormula': False}, {'id': 'B', 'type': 'Int', 'isFormula': False},
+      {'id': 'C', 'type': 'Int', 'isFormula': False}]
+REGRESSIONS = {
+  'sections_sorted_by_removed_column': [
+    [['AddTable', 'T', T3]],
+    [['CreateViewSection', 1, 1, 'record', None, None]] * 4,
+    [['UpdateRecord', '_grist_Views_section', s, {'sortColRefs': '[2]'}] for s in (1, 2, 4, 5, 6, 7)],
+    [['RemoveColumn', 'T', 'A']]],
+  'summary_tables_of_renamed_groupby_column': [
+    [['AddTable', 'T', T3]],
+    [['CreateViewSection', 1, 0, 'record', gb, None] for gb in ([2], [2, 3], [2, 4], [2, 3, 4])],
+    [['RenameColumn', 'T', 'A', 'X']]],
+  'pages_named_like_renamed_table': [
+    [['AddTable', 'T', T3]],
+    [['AddView', 'T', 'raw_data', 'T']] * 4,
+    [['UpdateRecord', '_grist_Views_section', 2, {'title': 'Zed'}]]],
+}
+
+
+def run_regressions(spec, acc):
+  from vlib.client import EngineProc
+  for name, bundles in sorted(REGRESSIONS.items()):
+    replies = []
+    for hs in range(spec['k']):
+      with EngineProc(hashseed=hs) as p:
+        p.init_doc()
+        last = None
+        for b in bundles:
+          last, err = p.try_apply(json.loads(json.dumps(b)))
+          if err is not None:
+            acc.inconclusive.append('regression history %s: bundle %s failed: %s' % (name, b, err.text[:200]))
+            return
+        replies.append(multi.canon(last.raw))
+    acc.count('regression_histories')
+    for hs in range(1, spec['k']):
+      acc.count('reply_compares')
+      if replies[hs] != replies[0]:
+        acc.violation('reply_differs:stored', 'regression history %s: the replies to %s differ between PYTHONHASHSEED 0 and %d: %s' % (
+            name, bundles[-1], hs, multi.first_difference(replies[0], replies[hs])), {'history': bundles})
+        break
+    acc.case(histories.shape_hash('regression', name), {'history': name})
+
+
 def run_shard(spec, acc):
+  if spec.get('regression'):
+    return run_regressions(spec, acc)
   k = spec['k']
   h = HashHistory(acc, spec['hseed'], [{'hashseed': j} for j in range(k)], spec['steps'], weights=WEIGHTS, flags=FLAGS,
                   gen_cls=HashGen, raw_snapshots=True)
